@@ -193,6 +193,7 @@ func genTLS(repo string, write writer) {
 	write("TLSTables.lean", b, "Gen.TLS")
 	genConnInterlock(p, write)
 	genConnLocks(p, write)
+	genSharedLocks(p, write)
 }
 
 // genConnInterlock pins the constants of the Write/Close interlock of gmtls.Conn (conn.go): the value a Write
